@@ -559,4 +559,334 @@ theorem C14c_deleted {i : Nat} (a : List Ev) (ed : Ev) (mid : List Ev) (k : Key)
       exact (hmid' ed (by simp) hw).2 (.inl (hk ▸ hdel))
 
 
+/-! ### `Max-Age=0` and friends: which headers delete -/
+
+theorem normStep_keep {now : Int} {s : Std} {a : Attr} {t : Int} (h : s.expires = some t) (ha : ∀ w, a ≠ .maxAge w) :
+    (normStep now s a).expires = some t := by
+  cases a with
+  | domain v => simp only [normStep]; split <;> exact h
+  | path v => simp only [normStep]; split <;> exact h
+  | secure => exact h
+  | maxAge w => exact absurd rfl (ha w)
+  | expires v => simp only [normStep, h]
+  | other => exact h
+
+theorem foldl_normStep_keep {now : Int} (post : List Attr) {s : Std} {t : Int} (h : s.expires = some t)
+    (hpost : ∀ a ∈ post, ∀ w, a ≠ .maxAge w) : (post.foldl (normStep now) s).expires = some t := by
+  induction post generalizing s with
+  | nil => exact h
+  | cons a rest ih =>
+    exact ih (normStep_keep h (hpost a (List.mem_cons_self ..))) (fun b hb => hpost b (List.mem_cons_of_mem _ hb))
+
+/-- `Max-Age` beats `Expires` wherever it stands, and the last `Max-Age` counts -/
+theorem normalize_lastMaxAge (now v : Int) (pre post : List Attr) (hpost : ∀ a ∈ post, ∀ w, a ≠ .maxAge w) :
+    (normalize now (pre ++ .maxAge v :: post)).expires = some (now + v) := by
+  unfold normalize
+  rw [List.foldl_append, List.foldl_cons]
+  exact foldl_normStep_keep post rfl hpost
+
+/-- a header whose expiry is not in the future is a deletion of its key, nothing else -/
+theorem mkCookie_expired {req : Req} {now t : Int} {sc : SetCookie} (h : (normalize now sc.attrs).expires = some t)
+    (ht : t ≤ now) : ∃ k, mkCookie req now sc = .expired k ∧ k.name = sc.name := by
+  unfold mkCookie
+  simp only [h, ht, if_true]
+  exact ⟨_, rfl, rfl⟩
+
+/-- … in particular one with `Max-Age=0` or a negative `Max-Age` (the last one in the header) -/
+theorem mkCookie_maxAge_nonpos (req : Req) (now v : Int) (name value : Str) (pre post : List Attr)
+    (hpost : ∀ a ∈ post, ∀ w, a ≠ .maxAge w) (hv : v ≤ 0) :
+    ∃ k, mkCookie req now ⟨name, value, pre ++ .maxAge v :: post⟩ = .expired k ∧ k.name = name :=
+  mkCookie_expired (normalize_lastMaxAge now v pre post hpost) (by omega)
+
+/-- … and one whose expiry is in the future is a cookie with that expiry -/
+theorem mkCookie_live {req : Req} {now t : Int} {sc : SetCookie} (h : (normalize now sc.attrs).expires = some t)
+    (ht : now < t) : ∃ x, mkCookie req now sc = .cookie x ∧ x.expires = some t ∧ x.name = sc.name ∧ x.value = sc.value := by
+  unfold mkCookie
+  simp only [h, Int.not_le.mpr ht, if_false]
+  exact ⟨_, rfl, rfl, rfl, rfl⟩
+
+/-- **C14c_maxage0_removes** (one jar): a response whose only header for key `k` is already expired leaves no cookie
+    with key `k` in the jar -/
+theorem C14c_maxage0_removes {jar : Jar} (hc : Cons jar) (req : Req) (now : Int) (scs : List SetCookie) (k : Key)
+    (hdel : ∃ sc ∈ scs, mkCookie req now sc = .expired k)
+    (honly : ∀ sc ∈ scs, ∀ x, mkCookie req now sc = .cookie x → x.key ≠ k) :
+    ∀ x ∈ cookies (extract jar req now scs), x.key ≠ k := by
+  intro x hx
+  rcases (mem_extractMade hc req _).mp hx with ⟨ma, mb, hm, _⟩ | ⟨_, hno⟩
+  · have : Made.cookie x ∈ scs.map (mkCookie req now) := by rw [hm]; simp
+    obtain ⟨sc, hsc, hmk⟩ := List.mem_map.mp this
+    exact honly sc hsc x hmk
+  · intro hk
+    obtain ⟨sc, hsc, hmk⟩ := hdel
+    exact hno (.inl (by rw [hk, ← hmk]; exact List.mem_map_of_mem hsc))
+
+/-! ### host-only cookies -/
+
+/-- a cookie set without a `Domain` attribute by host `r0` goes to `r0`'s effective host and to its sub-domains — and to
+    no other host -/
+theorem hostMatch_hostOnly {r r0 : Req} {x : Cookie} (hx : x.domain = erhn r0) (hne : erhn r0 ≠ [])
+    (hdot : startsWith dot (erhn r0) = false) :
+    HostMatch r x ↔ erhn r = erhn r0 ∨ ∃ sub, erhn r = sub ++ '.' :: erhn r0 := by
+  unfold HostMatch dotDomain
+  rw [hx, hdot]
+  have : (erhn r0).isEmpty = false := by cases h : erhn r0 with | nil => exact absurd h hne | cons _ _ => rfl
+  simp only [this, Bool.not_false, Bool.and_self, if_true]
+  constructor
+  · rintro ⟨pre, h⟩
+    cases pre with
+    | nil => simp only [List.nil_append, List.cons.injEq, true_and] at h; exact .inl h
+    | cons c pre' =>
+      simp only [List.cons_append, List.cons.injEq] at h
+      exact .inr ⟨pre', h.2⟩
+  · rintro (h | ⟨sub, h⟩)
+    · exact ⟨[], by simp [h]⟩
+    · exact ⟨'.' :: sub, by simp [h]⟩
+
+/-- the domain of a cookie made from a header without `Domain` is the effective host of the request -/
+theorem mkCookie_hostOnly {req : Req} {now : Int} {sc : SetCookie} {x : Cookie} (h : mkCookie req now sc = .cookie x)
+    (hd : (normalize now sc.attrs).domain = none) : x.domain = erhn req ∧ x.domainSpecified = false := by
+  unfold mkCookie at h
+  simp only [hd] at h
+  split at h
+  · cases h; exact ⟨rfl, rfl⟩
+  · split at h
+    · cases h
+    · cases h; exact ⟨rfl, rfl⟩
+
+/-- … and the policy always accepts it -/
+theorem setOk_hostOnly {req : Req} {x : Cookie} (h : x.domainSpecified = false) : setOk req x = true := by
+  simp [setOk, setOkDomain, h]
+
+/-! ### the wire: who posts where -/
+
+/-- the requests on the wire are the posts of the history, one each, in order, numbered from `n` -/
+theorem run_posts (net : Net) (hist : List (Nat × Req)) (s : Sys) (n : Nat) :
+    (run net s n hist).map (fun e => (e.who, e.req)) = hist := by
+  induction hist generalizing s n with
+  | nil => rfl
+  | cons wr rest ih =>
+    obtain ⟨who, req⟩ := wr
+    simp only [run, List.map_cons, ih]
+    rfl
+
+/-- the posts a history of whole `ClientSM` operations puts on the wire, given how its abstract URLs are spelled -/
+def postsOf (urlOf : ClientSM.Url → Req) (tr : List ClientSM.Ev) : List (Nat × Req) :=
+  tr.map fun e => (e.who, urlOf e.req.url)
+
+/-- **C14c_clientSM_posts.**  Lay the cookie jar of `http.cookiejar` under any history of whole operations of the client
+    state machine of `ClientSM.lean` (any world, any configuration): request for request the wire shows the same client
+    posting to the same URL, and the `Cookie:` header of each is characterised as in `C14c_header_iff`. -/
+theorem C14c_clientSM_posts (w : ClientSM.World) (sys : ClientSM.Sys) (ops : List (Nat × ClientSM.Op))
+    (urlOf : ClientSM.Url → Req) (net : Net) (s0 : Sys) (hjar : ∀ i, (s0 i).jar = []) :
+    (run net s0 0 (postsOf urlOf (ClientSM.Sys.trace w sys ops))).map (fun e => (e.who, e.req)) =
+        (ClientSM.Sys.trace w sys ops).map (fun e => (e.who, urlOf e.req.url)) ∧
+    ∀ pre e post, run net s0 0 (postsOf urlOf (ClientSM.Sys.trace w sys ops)) = pre ++ e :: post → ∀ nv,
+      (nv ∈ e.header ↔
+        (s0 e.who).persist = true ∧ ∃ x, Live e.who pre x ∧ sendable e.req e.now x = true ∧ (x.name, x.value) = nv) :=
+  ⟨run_posts .., fun pre e post h nv => C14c_header_iff net s0 hjar _ pre e post h nv⟩
+
+/-! ### the default path, and the clause for plain cookies -/
+
+theorem all_of_dropWhile_nil {p : Char → Bool} {l : List Char} (h : l.dropWhile p = []) : ∀ x ∈ l, p x = true := by
+  induction l with
+  | nil => intro x hx; cases hx
+  | cons a l ih =>
+    simp only [List.dropWhile_cons] at h
+    split at h
+    · rename_i ha
+      intro x hx
+      rcases List.mem_cons.mp hx with rfl | hx
+      · exact ha
+      · exact ih h x hx
+    · cases h
+
+theorem beforeLastSlash_spec {s : Str} (h : '/' ∈ s) : ∃ tail, s = beforeLastSlash s ++ '/' :: tail := by
+  unfold beforeLastSlash
+  have hc : s.contains '/' = true := by simpa using h
+  rw [if_pos hc]
+  have hr : '/' ∈ s.reverse := by simpa using h
+  have hsplit := List.takeWhile_append_dropWhile (p := fun c => decide (c ≠ '/')) (l := s.reverse)
+  cases hd : s.reverse.dropWhile (fun c => decide (c ≠ '/')) with
+  | nil =>
+    have := all_of_dropWhile_nil hd '/' hr
+    simp at this
+  | cons c rest =>
+    have hne : s.reverse.dropWhile (fun c => decide (c ≠ '/')) ≠ [] := by rw [hd]; simp
+    have hhead := List.head_dropWhile_not (fun c => decide (c ≠ '/')) hne
+    simp only [hd, List.head_cons, decide_eq_false_iff_not, ne_eq, Decidable.not_not] at hhead
+    subst hhead
+    rw [hd] at hsplit
+    refine ⟨(s.reverse.takeWhile (fun c => decide (c ≠ '/'))).reverse, ?_⟩
+    have := congrArg List.reverse hsplit
+    simp only [List.reverse_append, List.reverse_cons, List.reverse_reverse, List.append_assoc] at this
+    exact this.symm.trans (by simp)
+
+theorem pathReturnOk_default (r : Req) : pathReturnOk (defaultPath r) r = true := by
+  have hp : ∃ rest, requestPath r = '/' :: rest := by
+    unfold requestPath
+    simp only
+    split
+    · rename_i h
+      obtain ⟨rest, h⟩ := startsWith_iff.mp h
+      exact ⟨rest, by simpa using h⟩
+    · exact ⟨_, rfl⟩
+  obtain ⟨rest0, hp0⟩ := hp
+  obtain ⟨tail, ht⟩ := beforeLastSlash_spec (s := requestPath r) (by rw [hp0]; simp)
+  have hpm : PathMatch r ⟨[], [], [], false, defaultPath r, false, false, none⟩ := by
+    unfold PathMatch defaultPath
+    simp only
+    cases hb : beforeLastSlash (requestPath r) with
+    | nil =>
+      rw [hb] at ht
+      exact ⟨tail, by simpa using ht, .inr (.inl ⟨[], rfl⟩)⟩
+    | cons c cs =>
+      rw [hb] at ht
+      exact ⟨'/' :: tail, by simpa using ht, .inr (.inr ⟨tail, rfl⟩)⟩
+  exact pathReturnOk_iff.mpr hpm
+
+
+theorem mkCookie_key_name (req : Req) (now : Int) (sc : SetCookie) : (mkCookie req now sc).key.name = sc.name := by
+  unfold mkCookie
+  simp only
+  split
+  · rfl
+  · split <;> rfl
+
+/-- what a bare `name=value` header makes: a host-only session cookie for the directory of the request path -/
+theorem mkCookie_plain (req : Req) (now : Int) (n v : Str) :
+    mkCookie req now ⟨n, v, []⟩ = .cookie ⟨n, v, erhn req, false, defaultPath req, false, false, none⟩ := rfl
+
+/-- … which the URL that set it gets back, whatever the scheme and the clock -/
+theorem sendable_plain_same (r : Req) (now : Int) (n v : Str) (hne : erhn r ≠ []) (hdot : startsWith dot (erhn r) = false) :
+    sendable r now ⟨n, v, erhn r, false, defaultPath r, false, false, none⟩ = true := by
+  rw [sendable_iff hdot]
+  refine ⟨?_, pathReturnOk_iff.mp (pathReturnOk_default r), by simp, by simp⟩
+  refine ⟨[], ?_⟩
+  have : (erhn r).isEmpty = false := by cases h : erhn r with | nil => exact absurd h hne | cons _ _ => rfl
+  simp [dotDomain, hdot, this]
+
+theorem made_name_mem {e : Ev} {m : Made} (hm : m ∈ e.made) :
+    ∃ scs, e.reply.set = some scs ∧ ∃ sc ∈ scs, m.key.name = sc.name := by
+  unfold Ev.made at hm
+  cases hset : e.reply.set with
+  | none => rw [hset] at hm; cases hm
+  | some scs =>
+    rw [hset] at hm
+    obtain ⟨sc, hsc, rfl⟩ := List.mem_map.mp hm
+    exact ⟨scs, rfl, sc, hsc, mkCookie_key_name ..⟩
+
+section
+variable (net : Net) (s0 : Sys) (hjar : ∀ i, (s0 i).jar = []) (hist : List (Nat × Req))
+include hjar
+
+/-- **C14c_replay_plain** — the clause of C14 as the property text has it, for the cookies OFX servers typically set.
+    A bare `name=value` cookie in the response to a request of a client that keeps cookies is sent on **every** later
+    request of the same client to the same URL, as long as no response to that client in between (nor a later header of
+    the same response) carried a `Set-Cookie` of that name. -/
+theorem C14c_replay_plain (a : List Ev) (e0 : Ev) (mid : List Ev) (e : Ev) (post : List Ev)
+    (h : run net s0 0 hist = a ++ e0 :: (mid ++ e :: post)) (hw : e0.who = e.who)
+    (hp : (s0 e.who).persist = true) (scs1 scs2 : List SetCookie) (n v : Str)
+    (hset : e0.reply.set = some (scs1 ++ ⟨n, v, []⟩ :: scs2)) (hlast : ∀ sc ∈ scs2, sc.name ≠ n)
+    (hmid : ∀ e1 ∈ mid, e1.who = e.who → ∀ scs, e1.reply.set = some scs → ∀ sc ∈ scs, sc.name ≠ n)
+    (hreq : e.req = e0.req) (hne : erhn e0.req ≠ []) (hdot : startsWith dot (erhn e0.req) = false) :
+    (n, v) ∈ e.header := by
+  let x : Cookie := ⟨n, v, erhn e0.req, false, defaultPath e0.req, false, false, none⟩
+  have hst : Stores e0.req e0.made x := by
+    refine ⟨scs1.map (mkCookie e0.req e0.reply.tResp), scs2.map (mkCookie e0.req e0.reply.tResp), ?_, setOk_hostOnly rfl, ?_⟩
+    · simp [Ev.made, hset, mkCookie_plain, x]
+    · intro c' hc' _ hk
+      obtain ⟨sc, hsc, hmk⟩ := List.mem_map.mp hc'
+      have h1 := mkCookie_key_name e0.req e0.reply.tResp sc
+      rw [hmk] at h1
+      have h2 : c'.key.name = n := by rw [hk]; rfl
+      exact hlast sc hsc (by rw [← h1]; exact h2)
+  have := C14c_replay net s0 hjar hist a e0 mid e post h hw hp x hst ?_ (by rw [hreq]; exact sendable_plain_same _ _ _ _ hne hdot)
+  · exact this
+  · intro e1 he1 hw1
+    refine ⟨rfl, ?_⟩
+    rintro (hd | ⟨c', hc', _, hk⟩)
+    · obtain ⟨scs, hs, sc, hsc, hn⟩ := made_name_mem hd
+      exact hmid e1 he1 hw1 scs hs sc hsc hn.symm
+    · obtain ⟨scs, hs, sc, hsc, hn⟩ := made_name_mem hc'
+      refine hmid e1 he1 hw1 scs hs sc hsc ?_
+      rw [← hn]
+      show c'.key.name = n
+      rw [hk]; rfl
+end
+
+/-! ### the guards are satisfiable: a concrete history -/
+
+section Examples
+
+private def rq (https : Bool) (host path : String) : Req := ⟨https, host.toList, path.toList⟩
+private def ck (n v : String) (attrs : List Attr) : SetCookie := ⟨n.toList, v.toList, attrs⟩
+
+/-- the n-th request leaves at the first time and is answered at the second with these `Set-Cookie` headers -/
+def exScript : List (Int × Int × Option (List SetCookie)) :=
+  [ (1000, 1000, some [ck "sid" "A" [.path "/ofx".toList, .secure, .other],
+                       ck "pref" "B" [.domain "bank.example".toList, .maxAge 100], ck "t" "C" []]),
+    (1001, 1001, some [ck "sid" "D" []]),
+    (1010, 1010, some []), (1020, 1020, some []), (1030, 1030, some []),
+    (1040, 1041, some [ck "sid" "X" [.maxAge 0, .path "/ofx".toList]]),
+    (1050, 1050, some []), (1200, 1200, some []), (1201, 1201, none),
+    (1202, 1202, some [ck "sid" "E" []]), (1203, 1203, some []) ]
+
+def exNet : Net :=
+  { tReq := fun n => match exScript[n]? with | some e => e.1 | none => 0,
+    reply := fun n _ _ => match exScript[n]? with | some e => ⟨e.2.1, e.2.2⟩ | none => ⟨0, none⟩ }
+
+/-- instances 0 and 1 keep cookies, instance 2 does not -/
+def exSys : Sys := fun i => ⟨i != 2, []⟩
+
+def exHist : List (Nat × Req) :=
+  [ (0, rq true "bank.example" "/ofx/v1"), (1, rq true "bank.example" "/ofx/v1"),
+    (0, rq true "www.bank.example" "/ofx/v1/x"), (0, rq false "bank.example" "/ofx"),
+    (0, rq true "notbank.example" "/ofx"), (0, rq true "bank.example" "/ofx/v1"), (0, rq true "bank.example" "/ofx/v1"),
+    (0, rq true "bank.example" "/ofx/v1"), (1, rq true "bank.example" "/other"),
+    (2, rq true "bank.example" "/ofx/v1"), (2, rq true "bank.example" "/ofx/v1") ]
+
+private def nv (n v : String) : Str × Str := (n.toList, v.toList)
+
+/-- what goes over the wire: instance 0 gets its three cookies back on a sub-domain (host-only cookies go to
+    sub-domains under the default policy), not the `Secure` one over http, none at a look-alike host; `Max-Age=0`
+    removes `sid`; `pref` is gone after its 100 seconds; instance 1 never sees instance 0's cookies nor sends its own to
+    a foreign path; instance 2 (`persist_cookies=False`) sends nothing although the server set a cookie for it -/
+example : (run exNet exSys 0 exHist).map (fun e => (e.who, e.header)) =
+    [ (0, []), (1, []),
+      (0, [nv "sid" "A", nv "t" "C", nv "pref" "B"]), (0, [nv "t" "C", nv "pref" "B"]), (0, []),
+      (0, [nv "sid" "A", nv "t" "C", nv "pref" "B"]), (0, [nv "t" "C", nv "pref" "B"]), (0, [nv "t" "C"]),
+      (1, []), (2, []), (2, []) ] := by decide +kernel
+
+-- `C14c_replay` / `C14c_header_iff`: a live, matching cookie exists (the third request of the history carries one)
+example : ∃ pre e post, run exNet exSys 0 exHist = pre ++ e :: post ∧
+    ∃ x, Live e.who pre x ∧ sendable e.req e.now x = true ∧ (x.name, x.value) = nv "sid" "A" := by
+  have hne : ∃ e ∈ run exNet exSys 0 exHist, nv "sid" "A" ∈ e.header := by decide +kernel
+  obtain ⟨e, he, hnv⟩ := hne
+  obtain ⟨pre, post, hrun⟩ := List.append_of_mem he
+  exact ⟨pre, e, post, hrun, ((C14c_header_iff exNet exSys (fun _ => rfl) exHist pre e post hrun _).mp hnv).2⟩
+
+-- `C14c_deleted` / `C14c_maxage0_removes` / `mkCookie_maxAge_nonpos`: the sixth response deletes exactly one key
+example : mkCookie (rq true "bank.example" "/ofx/v1") 1041 (ck "sid" "X" [.maxAge 0, .path "/ofx".toList]) =
+    .expired ⟨"bank.example".toList, "/ofx".toList, "sid".toList⟩ := by decide +kernel
+
+-- `sendable_iff`, `hostMatch_hostOnly`: ordinary hosts do not begin with a dot and are not empty
+example : startsWith dot (erhn (rq true "bank.example" "/ofx")) = false ∧ erhn (rq true "bank.example" "/ofx") ≠ [] ∧
+    erhn (rq true "localhost" "/") = "localhost.local".toList := by decide +kernel
+
+-- `set_ok_domain`: a parent domain is accepted, a foreign or dot-less one is not
+example : (["bank.example", ".bank.example", "www.bank.example", "example", "other.test", "k.example"].map fun d =>
+      match mkCookie (rq true "www.bank.example" "/") 0 (ck "a" "b" [.domain d.toList]) with
+      | .cookie c => setOk (rq true "www.bank.example" "/") c
+      | .expired _ => false) = [true, true, true, false, false, false] := by decide +kernel
+
+-- `escape_path`
+example : escapePath "/a b/%7euser/é".toList = "/a%20b/%7Euser/%C3%A9".toList := by decide +kernel
+
+
+-- `C14c_replay_plain`: the first response carries the bare cookie `t=C` last, and instance 0 posts to the same URL again
+example : ∃ e ∈ run exNet exSys 0 exHist, e.n = 5 ∧ e.req = rq true "bank.example" "/ofx/v1" ∧ nv "t" "C" ∈ e.header := by
+  decide +kernel
+
+end Examples
+
 end Ofx.CookieJar
